@@ -16,6 +16,8 @@ LEVEL = "other"
 def run(chk):
     cfgs = ["base", "z"] if chk.tier == "quick" else ["base", "z", "hi"]
     chk.configs = cfgs
+    chk.rule("TRIM.closed-only", "every call of TrimHorz is unreachable for an open edge (dominating conditions interpreted with IsOpen answered true): no vertex of an open "
+             "path is trimmed away")
     chk.rule("FLAG.sticky", "has_open_paths_ is only switched on where paths are added (`= true`) and off in Clear(): a later closed path cannot switch the "
              "open-path logic of the sweep off")
     chk.rule("T.detach", "an edge that stops contributing clears its output record's pointer to itself: front_edge iff IsFront(edge), else back_edge (IntersectEdges, "
@@ -34,6 +36,8 @@ def run(chk):
     for cfg in cfgs:
         db = AstDB(cfg)
         e3.detach_table(db, chk, cfg)
+        from ..engines import e10_pipeline as _e10t
+        _e10t.rule_trim_closed_only(db, chk, cfg)
         from ..engines import e10_pipeline as _e10f
         _e10f.rule_sticky_open_flag(db, chk, cfg)
         e3.table_open(db, chk, cfg)
